@@ -376,7 +376,93 @@ func (res *CheckResult) checkExpression(lit parser.ValueExpr, requiredType strin
 	case *parser.BinaryInfix:
 		res.checkExpression(lit.Left, TypeAny)
 		res.checkExpression(lit.Right, TypeAny)
+		res.checkInfixTypes(lit, requiredType)
 	}
+}
+
+// The type of an expression, when it can be told statically ("" otherwise)
+func (res *CheckResult) staticTypeOf(expr parser.ValueExpr) string {
+	switch expr := expr.(type) {
+	case *parser.Variable:
+		if expr == nil {
+			return ""
+		}
+		decl, ok := res.declaredVars[expr.Name]
+		if !ok || decl.Type == nil || !isTypeAllowed(decl.Type.Name) {
+			return ""
+		}
+		return decl.Type.Name
+	case *parser.MonetaryLiteral:
+		return TypeMonetary
+	case *parser.AccountLiteral:
+		return TypeAccount
+	case *parser.RatioLiteral:
+		return TypePortion
+	case *parser.AssetLiteral:
+		return TypeAsset
+	case *parser.NumberLiteral:
+		return TypeNumber
+	case *parser.StringLiteral:
+		return TypeString
+	case *parser.BinaryInfix:
+		if expr == nil {
+			return ""
+		}
+		return res.staticTypeOf(expr.Left)
+	}
+	return ""
+}
+
+func isNilValueExpr(expr parser.ValueExpr) bool {
+	switch expr := expr.(type) {
+	case nil:
+		return true
+	case *parser.Variable:
+		return expr == nil
+	case *parser.MonetaryLiteral:
+		return expr == nil
+	case *parser.AccountLiteral:
+		return expr == nil
+	case *parser.RatioLiteral:
+		return expr == nil
+	case *parser.AssetLiteral:
+		return expr == nil
+	case *parser.NumberLiteral:
+		return expr == nil
+	case *parser.StringLiteral:
+		return expr == nil
+	case *parser.BinaryInfix:
+		return expr == nil
+	}
+	return false
+}
+
+// "+" and "-" are defined on two numbers or on two monetaries (and yield the same type)
+func (res *CheckResult) checkInfixTypes(infix *parser.BinaryInfix, requiredType string) {
+	if isNilValueExpr(infix.Left) || isNilValueExpr(infix.Right) {
+		return
+	}
+
+	leftType := res.staticTypeOf(infix.Left)
+	if leftType == "" {
+		return
+	}
+	if leftType != TypeNumber && leftType != TypeMonetary {
+		res.Diagnostics = append(res.Diagnostics, Diagnostic{
+			Range: infix.Left.GetRange(),
+			Kind: &TypeMismatch{
+				Expected: TypeNumber,
+				Got:      leftType,
+			},
+		})
+		return
+	}
+
+	rightType := res.staticTypeOf(infix.Right)
+	if rightType != "" {
+		res.assertHasType(infix.Right, leftType, rightType)
+	}
+	res.assertHasType(infix, requiredType, leftType)
 }
 
 func (res *CheckResult) assertHasType(lit parser.ValueExpr, requiredType string, actualType string) {
